@@ -376,6 +376,69 @@ func streamDumpLoad(ctx *Ctx) *Result {
 		checkDumpLoad(res, d, r, ladder[i].name, []byte(ladder[i].src))
 		res.Count("ladder", 1)
 	})
+	// a Prog value that already holds a program receives another file through Load: afterwards it is
+	// that file's program, whatever it held before (families: the same code with other constants, the
+	// same text under another layout, the same program again, an unrelated program)
+	parallel(ctx.Pool, ctx.Seed+9, ctx.N(120), func(i int, r *rand.Rand, d *Driver) {
+		k := 2 + r.Intn(7000)
+		mk := func(v int, lay string) string {
+			return fmt.Sprintf("def t {%sport = %d%shost = \"h%d\"%s}%sprint %d + 2", lay, v, lay, v, lay, lay, v)
+		}
+		var seq []string
+		switch i % 4 {
+		case 0:
+			seq = []string{mk(k, " "), mk(k+100, " ")}
+		case 1:
+			seq = []string{mk(k, " "), mk(k, "\n\n ")}
+		case 2:
+			seq = []string{mk(k, " "), mk(k, " "), mk(k+1, "\n")}
+		default:
+			g := NewGen(r)
+			g.ErrRate = 0
+			seq = []string{mk(k, " "), Render(g.Program(1+r.Intn(4)), r, false), mk(k+5, " ")}
+		}
+		v := guarded(opTimeout, func() string {
+			var prog *bcl.Prog
+			var out, log capBuf
+			for j, src := range seq {
+				p0, err := bcl.Parse([]byte(src), "input", bcl.OptOutput(io.Discard), bcl.OptLogger(io.Discard))
+				if err != nil {
+					return "skip"
+				}
+				dump, err := dumpOf(p0)
+				if err != nil {
+					return "FAIL Dump: " + err.Error()
+				}
+				if prog == nil {
+					prog, err = bcl.LoadProg(bytes.NewReader(dump), "input", bcl.OptOutput(&out), bcl.OptLogger(&log))
+				} else {
+					err = prog.Load(bytes.NewReader(dump))
+				}
+				if err != nil {
+					return fmt.Sprintf("FAIL load %d of the sequence: %v", j, err)
+				}
+				d2, err := dumpOf(prog)
+				if err != nil || !bytes.Equal(d2, dump) {
+					return fmt.Sprintf("FAIL after load %d of the sequence the Prog dumps other bytes than the file it was given (err=%v)", j, err)
+				}
+				var o2, l2 capBuf
+				fresh, err := bcl.LoadProg(bytes.NewReader(dump), "input", bcl.OptOutput(&o2), bcl.OptLogger(&l2))
+				if err != nil {
+					return "FAIL fresh load: " + err.Error()
+				}
+				if a, b := runAll(prog, &out, &log), runAll(fresh, &o2, &l2); a != b {
+					return fmt.Sprintf("FAIL after load %d of the sequence the Prog runs differently from a fresh load of the same file: %.300s vs %.300s", j, a, b)
+				}
+			}
+			return "ok"
+		})
+		res.Eval(1)
+		res.Count("reload-sequence."+strings.SplitN(v, " ", 2)[0], 1)
+		if v != "ok" && v != "skip" {
+			res.Fail(Failure{Kind: "oracle", Input: fmt.Sprintf("LoadProg then (*Prog).Load over the same Prog, files compiled from: %q", seq), Impl: v,
+				Expected: "a bytecode file means the same whatever the receiving Prog held before: same dump bytes, same execution as a fresh load"})
+		}
+	})
 	parallel(ctx.Pool, ctx.Seed+7, ctx.N(800), func(i int, r *rand.Rand, d *Driver) {
 		g := NewGen(r)
 		g.MaxDepth = 1 + r.Intn(5)
@@ -393,7 +456,7 @@ func streamDumpLoad(ctx *Ctx) *Result {
 // streamTruncate: every proper prefix of every dump must be rejected with an error (C13).
 func streamTruncate(ctx *Ctx) *Result {
 	res := NewResult("truncate", "every cut point 0..len-1 of dumps of accepted programs, each read whole and one byte at a time; plus wrong magic values and version pairs; non-trivial = a (dump, cut) pair; distinct by prefix bytes")
-	check := func(d *Driver, what string, bs []byte, wantErr bool) {
+	check := func(d *Driver, what string, bs []byte, wantErr bool, withModel bool) {
 		v := guarded(opTimeout, func() string {
 			_, err1 := bcl.LoadProg(bytes.NewReader(bs), "x", bcl.OptOutput(io.Discard), bcl.OptLogger(io.Discard))
 			_, err2 := bcl.LoadProg(iotest.OneByteReader(bytes.NewReader(bs)), "x", bcl.OptOutput(io.Discard), bcl.OptLogger(io.Discard))
@@ -419,6 +482,9 @@ func streamTruncate(ctx *Ctx) *Result {
 			res.Fail(Failure{Kind: "oracle", Input: what + " bytes=" + hx(bs), Impl: v, Expected: "LoadProg returns a non-nil error (no panic, no hang, no accepted program)"})
 			return
 		}
+		if !withModel {
+			return
+		}
 		impl := implLoad(bs)
 		model := ask(d, "LOAD "+hx(bs))
 		if impl != model {
@@ -434,6 +500,7 @@ func streamTruncate(ctx *Ctx) *Result {
 		g.ErrRate = 40
 		var dump []byte
 		var src string
+		heavy := false
 		for try := 0; try < 20 && dump == nil; try++ {
 			ss := g.Program(1 + r.Intn(6))
 			src = Render(ss, r, false)
@@ -443,6 +510,14 @@ func streamTruncate(ctx *Ctx) *Result {
 			if i%10 == 1 {
 				// newlines far into the source: multi-byte entries at the very end of the dump
 				src = "#" + strings.Repeat("c", []int{240, 2290, 67830}[r.Intn(3)]) + "\n" + src + "\n"
+			}
+			if i%40 == 3 {
+				// more entries in the line table and in the positions table than any fixed-size
+				// preallocation holds (4 096): thousands of short lines
+				n := []int{4097, 4200, 5000}[r.Intn(3)]
+				heavy = true
+				src = strings.Repeat("\n", n/2) + strings.Repeat("eval 1\n", n/2) + src
+				res.Count("many-lines", 1)
 			}
 			if i%10 == 2 {
 				// the last newline exactly at, just below and just above every varint size boundary:
@@ -471,7 +546,7 @@ func streamTruncate(ctx *Ctx) *Result {
 			if step > 1 && k > 200 && k < len(dump)-200 && k%step != 0 {
 				continue
 			}
-			check(d, fmt.Sprintf("prefix of length %d of the %d-byte dump of %q", k, len(dump), trunc(src, 300)), dump[:k], true)
+			check(d, fmt.Sprintf("prefix of length %d of the %d-byte dump of %q", k, len(dump), trunc(src, 300)), dump[:k], true, !heavy || k%24 == 0 || k > len(dump)-12)
 			res.Nontrivial(fmt.Sprintf("%x|%d", dump, k))
 			res.Count("cuts", 1)
 		}
@@ -493,11 +568,11 @@ func streamTruncate(ctx *Ctx) *Result {
 		}
 		b := append([]byte(nil), sd...)
 		b[0], b[1] = byte(v>>8), byte(v)
-		check(d, fmt.Sprintf("magic %04x", v), b, v != 0xFC6C)
+		check(d, fmt.Sprintf("magic %04x", v), b, v != 0xFC6C, true)
 		res.Count("magic", 1)
 		b = append([]byte(nil), sd...)
 		b[2], b[3] = byte(v>>8), byte(v)
-		check(d, fmt.Sprintf("version %d.%d", b[2], b[3]), b, !(b[2] == 1 && b[3] <= 1))
+		check(d, fmt.Sprintf("version %d.%d", b[2], b[3]), b, !(b[2] == 1 && b[3] <= 1), true)
 		res.Count("version", 1)
 	})
 	return res
